@@ -500,6 +500,8 @@ def run(repo, rep):
     _log_rule(repo, rep, 'C05', 'C05.Z2')
     from ..api_pitfalls import truth_rule as _truth_rule
     _truth_rule(repo, rep, 'C05', 'C05.Z4')
+    from ..api_pitfalls import attribute_rule as _attribute_rule
+    _attribute_rule(repo, rep, 'C05', 'C05.Z5')
     model = FsmModel(repo)
     pm = ProviderModel(repo, model)
     rep.trust('PS3.8 Table 9-10 event rows and state definitions as transcribed in pnd_static/oracles/ps3_8.py')
